@@ -46,7 +46,9 @@ DECIDED = {
             "whitespace; containers inductively (array/object productions and value dispatch of the validating skipper, and the object "
             "production of both DOM drivers with their whole event stream, against an abstract nested recogniser E given as a symbolic "
             "table, for every E); the serde seq state machine and end_seq/end_map; raw-number capture; the deferred UTF-8 verdict "
-            "is reported by check_utf8_final."),
+            "is reported by check_utf8_final. Finiteness on the table-driven float path: every result of parse_floating_normal_fast that "
+            "parse_float hands out is a finite normal double, for every significand and every exponent at both ends of the guard "
+            "(thorough: all exponents) - SMT over the MIR."),
     "C03": ("The packed node metadata (kind, index-to-header, length survive Meta::pack_dom_node/unpack_dom_node for every len and every idx "
             "that fits the 29-bit field; idx >= 2^29 is known finding F6); the parser->visitor event stream of the object production of "
             "both DOM drivers (member order, duplicates, counts handed to visit_object_end) for every nested recogniser E; the raw-number "
@@ -60,10 +62,18 @@ DECIDED = {
             "negative zero; grammar and stop index of the fully-parsing scanner on all byte strings <= 7; exponent scanner saturation; "
             "power-of-ten tables; Clinger fast path for fixed exponents and 20/16-bit significands; SSE simd_str2int == scalar for "
             "need <= 8 (9 thorough); of the big-decimal fallback the two kernels within reach: Decimal::try_add_digit never writes outside "
-            "the digit buffer, Decimal::round is round-half-even on every trimmed decimal of <= 6 digits."),
+            "the digit buffer, Decimal::round is round-half-even on every trimmed decimal of <= 6 digits. "
+            "Table-driven float construction, by SMT over the compiler's MIR (crate 'smt'): for every decimal exponent in the stated set "
+            "(quick: both ends of the guard, every 4th exponent and all of -25..40; thorough: every exponent in -345..345) and EVERY "
+            "significand 1 <= w < 10^19, every path of parse_float that returns from_u64_bits(raw) with raw computed by "
+            "parse_floating_normal_fast has raw == bits of the double nearest (ties to even) to w*10^e, exponent field in 1..=2046 "
+            "(finite, normal), and the sign asked for; exponents outside the guard never reach that constructor."),
     "C08": ("Raw numbers: deserialize_rawnumber (bare and quoted) captures exactly the span the number grammar delimits and rejects "
             "everything else; the validating number skipper == grammar; non-finite floats -> null; the integer clause by reduction: "
-            "every digit string itoa can emit is read back exactly (C07 integer harnesses), itoa's contract trusted."),
+            "every digit string itoa can emit is read back exactly (C07 integer harnesses), itoa's contract trusted; the read-back half "
+            "of the float clause for the table-driven constructor: every <= 19-digit significand with a decimal exponent in the stated set "
+            "is read as the nearest double (SMT over MIR, see C07), so a shortest-round-trip digit string of that shape reads back to the "
+            "double it denotes."),
     "C09": ("All code points / surrogates: for every `\\uXXXX` + 6 following bytes (2^80 inputs) both real decoders' escape handlers "
             "(handle_unicode_codepoint_mut in place, parse_escaped_utf8 + codepoint_to_utf8 copying) produce exactly what UTF-16 "
             "semantics prescribe, strict and lossy, and consume exactly what they decode; hex and UTF-8 encoders complete; the block "
@@ -107,7 +117,7 @@ OUTSIDE = {
             "k_check_cross_page)", "dependencies' internals (simdutf8, bytes, faststr, bumpalo, ahash, itoa, ryu)",
             "stack *size* per frame (only the nesting bound is decided)"],
     "C02": ["UTF-8 validation (simdutf8 is a trusted dependency; the deferred-error plumbing is not decided)", "the in-place DOM string decoder "
-            "and the copying decoder's escape branch end to end (kernels only)", "finiteness of floats (C07's float tiers are outside)",
+            "and the copying decoder's escape branch end to end (kernels only)", "finiteness of floats on the Eisel-Lemire / big-decimal tiers (their own `is_infinite` check is read, not decided)",
             "parse_array/parse_array2 bodies (the array DOM drivers; the object drivers are decided)",
             "MapAccess::next_key_seed, enum framing", "inputs whose deciding bytes are farther apart than the window / N"],
     "C03": ["the array DOM drivers parse_array/parse_array2 (recursion into the function under test made the harness time out)",
@@ -117,8 +127,11 @@ OUTSIDE = {
             "and a failing writer end to end (harnesses w_compound_shape / w_failing_writer ran out of memory)", "BytesMut writers", "MapKeySerializer",
             "strings >= 32 bytes (block path of format_string: b_format_string_w28 needs 21 minutes and is not registered)",
             "the release-only over-read branch"],
-    "C07": ["correct rounding of parse_floating_normal_fast (64x64->128 table product), Eisel-Lemire compute_float and the big-decimal "
-            "fallback parse_long_mantissa: halfway cases, > 19 digits, subnormals are NOT covered", "typed narrowing by serde's primitive "
+    "C07": ["Eisel-Lemire compute_float, the Clinger path parse_float_fast beyond the fixed exponents above (f64 arithmetic) and the "
+            "big-decimal fallback parse_long_mantissa: > 19 digits, truncated digits, subnormals are NOT covered (paths through them are "
+            "counted as opaque by the SMT runs)", "the dev-profile overflow assertion at `add + 1` in parse_floating_normal_fast (neither "
+            "solver decides it; release builds wrap there by design)", "that parse_number passes 1 <= w < 10^19 and the right exponent to "
+            "parse_float is decided only for texts <= 7 bytes (u_parse_number_grammar_n7)", "typed narrowing by serde's primitive "
             "visitors", "the 16-digit SIMD fraction reader inside parse_number_fraction on inputs >= 16 bytes (kernel only: x_num_str2int)"],
     "C08": ["ryu digit generation and its read-back for f64/f32", "128-bit integers", "Serialize for RawNumber / numeric accessors of RawNumber"],
     "C09": ["parse_string_inplace loops and padding", "parse_string_escaped / parse_escaped_char (Vec traffic) end to end",
